@@ -9,6 +9,17 @@ Open Scope Z_scope.
 Definition ftrace := trace float.
 Definition ftraces := traces float.
 
+(* how the span object is searched by _locate_period_in_span (SolveAll.v): 0 = a Python list (span.index: first occurrence),
+   1 = a NumPy array (the static fallback: exactly one match, returned as a built-in int), otherwise a pandas Index of
+   DISTINCT plain labels (get_loc answers with the position; with repeated labels it would answer with a slice or a mask,
+   which the case generator does not produce) *)
+Definition span_locate (kind : nat) (span : list Z) (x : Z) : locres :=
+  match kind with
+  | O => locate_index span x
+  | S O => locate_unique span x
+  | _ => locate_index span x
+  end.
+
 (* one call on the instance: which solve method, its options, the trace= and reset= keywords *)
 (* (labels are the integers of the span; the span is a Python list, searched with list.index = SolveAll.locate_index) *)
 Inductive entry : Type :=
@@ -30,7 +41,7 @@ Definition f_traced_solve_t (sc : scripts) (cfg : tcfg) (a : targ) (reset : bool
                  (s_ev n sc) (s_before n sc) (s_after n sc) d o t s tr.
 
 (* the call on the tracer-extended class, with the keywords *)
-Definition f_call (sc : scripts) (cfg : tcfg) (span : list Z) (d : mdesc) (c : call) (s : fstate) (tr : ftraces)
+Definition f_call (sc : scripts) (cfg : tcfg) (kind : nat) (span : list Z) (d : mdesc) (c : call) (s : fstate) (tr : ftraces)
   : (fstate * ftraces) * cres :=
   let n := length (status s) in
   let ev := s_ev n sc in let be := s_before n sc in let af := s_after n sc in
@@ -40,14 +51,14 @@ Definition f_call (sc : scripts) (cfg : tcfg) (span : list Z) (d : mdesc) (c : c
                                      ev be af d (k_opts c) t s tr in (st, RBool o)
   | ESolvePeriod lab =>
       let '(st, o) := traced_solve_period_all float PrimFloat.sub PrimFloat.abs PrimFloat.ltb fisfin fzero cfg (k_targ c) (k_reset c)
-                                              ev be af Z (locate_index span) d (k_opts c) lab s tr in (st, RBool o)
+                                              ev be af Z (span_locate kind span) d (k_opts c) lab s tr in (st, RBool o)
   | ESolve start end_ =>
       let '(st, o) := traced_solve_all float PrimFloat.sub PrimFloat.abs PrimFloat.ltb fisfin fzero cfg (k_targ c) (k_reset c)
-                                       ev be af Z (locate_index span) d (k_opts c) span start end_ s tr in (st, RSolve o)
+                                       ev be af Z (span_locate kind span) d (k_opts c) span start end_ s tr in (st, RSolve o)
   | ETraceT t label =>
       let '(tr', e) := trace_t float cfg t label (k_targ c) (k_reset c) (vals_of s) tr in ((s, tr'), unit_res e)
   | ETracePeriod lab label =>
-      let '(tr', e) := trace_period_M float cfg (k_targ c) (k_reset c) Z (locate_index span) lab label (vals_of s) tr in
+      let '(tr', e) := trace_period_M float cfg (k_targ c) (k_reset c) Z (span_locate kind span) lab label (vals_of s) tr in
       ((s, tr'), unit_res e)
   | ESetSeries i row => ((with_vals float s (upd i row (vals_of s)) (log s), tr), RUnit (Ret tt))
   | ENoop => ((s, tr), RUnit (Ret tt))
@@ -55,7 +66,7 @@ Definition f_call (sc : scripts) (cfg : tcfg) (span : list Z) (d : mdesc) (c : c
   end.
 
 (* the same call without the keywords (the untraced twin): Solver.solve_t_M, SolveAll.solve_period_M, SolveAll.solve_M *)
-Definition f_plain_call (sc : scripts) (span : list Z) (d : mdesc) (c : call) (s : fstate) : fstate * cres :=
+Definition f_plain_call (sc : scripts) (kind : nat) (span : list Z) (d : mdesc) (c : call) (s : fstate) : fstate * cres :=
   let n := length (status s) in
   let ev := s_ev n sc in let be := s_before n sc in let af := s_after n sc in
   match k_entry c with
@@ -63,10 +74,10 @@ Definition f_plain_call (sc : scripts) (span : list Z) (d : mdesc) (c : call) (s
       let '(s', o) := solve_t_M float PrimFloat.sub PrimFloat.abs PrimFloat.ltb fisfin fzero ev be af d (k_opts c) t s in
       (s', RBool o)
   | ESolvePeriod lab =>
-      let '(s', o) := solve_period_M float PrimFloat.sub PrimFloat.abs PrimFloat.ltb fisfin fzero ev be af Z (locate_index span) d (k_opts c) lab s in
+      let '(s', o) := solve_period_M float PrimFloat.sub PrimFloat.abs PrimFloat.ltb fisfin fzero ev be af Z (span_locate kind span) d (k_opts c) lab s in
       (s', RBool o)
   | ESolve start end_ =>
-      let '(s', o) := solve_M float PrimFloat.sub PrimFloat.abs PrimFloat.ltb fisfin fzero ev be af Z (locate_index span) d (k_opts c) span start end_ s in
+      let '(s', o) := solve_M float PrimFloat.sub PrimFloat.abs PrimFloat.ltb fisfin fzero ev be af Z (span_locate kind span) d (k_opts c) span start end_ s in
       (s', RSolve o)
   | ETraceT _ _ | ETracePeriod _ _ => (s, RUnit (Ret tt))       (* the twin is left alone: a snapshot method is not a solve *)
   | ESetSeries i row => (with_vals float s (upd i row (vals_of s)) (log s), RUnit (Ret tt))
@@ -134,35 +145,35 @@ Record xstep := mkX { x_state : fstate; x_traces : ftraces; x_res : cres; x_twin
                       x_frames : list fobs }.
 
 Record tcase17 := mkCase17 {
-  c_scripts : scripts; c_cfg : tcfg; c_span : list Z; c_desc : mdesc;
+  c_scripts : scripts; c_cfg : tcfg; c_kind : nat; c_span : list Z; c_desc : mdesc;
   c_state0 : fstate; c_calls : list call; c_expect : list xstep }.
 
 (* run the calls one after the other on the model (traced instance and untraced twin side by side) and compare
    with the implementation after every call *)
-Fixpoint run_check (sc : scripts) (cfg : tcfg) (span : list Z) (d : mdesc) (cs : list call) (xs : list xstep)
+Fixpoint run_check (sc : scripts) (cfg : tcfg) (kind : nat) (span : list Z) (d : mdesc) (cs : list call) (xs : list xstep)
          (s : fstate) (tr : ftraces) (u : fstate) : bool :=
   match cs, xs with
   | [], [] => true
   | c :: cs', x :: xs' =>
-      let '((s', tr'), r) := f_call sc cfg span d c s tr in
-      let '(u', ru) := f_plain_call sc span d c u in
+      let '((s', tr'), r) := f_call sc cfg kind span d c s tr in
+      let '(u', ru) := f_plain_call sc kind span d c u in
       state_eqb s' (x_state x) && list_eqb trace_eqb tr' (x_traces x) && cres_eqb r (x_res x)
       && frames_ok tr' (x_frames x)
       && state_eqb u' (x_twin x) && cres_eqb ru (x_twin_res x)
-      && run_check sc cfg span d cs' xs' s' tr' u'
+      && run_check sc cfg kind span d cs' xs' s' tr' u'
   | _, _ => false
   end.
 
 (* the model's own prediction for a sequence of calls (used to explain a disagreement in a replay file) *)
-Fixpoint run_calls (sc : scripts) (cfg : tcfg) (span : list Z) (d : mdesc) (cs : list call) (s : fstate) (tr : ftraces)
+Fixpoint run_calls (sc : scripts) (cfg : tcfg) (kind : nat) (span : list Z) (d : mdesc) (cs : list call) (s : fstate) (tr : ftraces)
   : list ((fstate * ftraces) * cres) :=
   match cs with
   | [] => []
-  | c :: cs' => let '((s', tr'), r) := f_call sc cfg span d c s tr in ((s', tr'), r) :: run_calls sc cfg span d cs' s' tr'
+  | c :: cs' => let '((s', tr'), r) := f_call sc cfg kind span d c s tr in ((s', tr'), r) :: run_calls sc cfg kind span d cs' s' tr'
   end.
 
 Definition check_tcase17 (c : tcase17) : bool :=
-  run_check (c_scripts c) (c_cfg c) (c_span c) (c_desc c) (c_calls c) (c_expect c) (c_state0 c)
+  run_check (c_scripts c) (c_cfg c) (c_kind c) (c_span c) (c_desc c) (c_calls c) (c_expect c) (c_state0 c)
             (repeat (empty_trace float) (length (status (c_state0 c)))) (c_state0 c).
 
 (* ---- which list object a freshly created Trace keeps as `names` (TracerNames.v): the observed identity flags
